@@ -149,7 +149,7 @@ def _real_backends(doc, ns):
     from xsdata.formats.dataclass.context import XmlContext
     from xsdata.formats.dataclass.serializers import TreeSerializer, XmlSerializer
 
-    cls, obj = mutate.DOCS[doc]
+    cls, obj = textpath.doc_object(doc)
     ns_map = NS_MAPS[ns]
     res = {}
     for name in ("native", "lxml", "tree"):
@@ -264,7 +264,7 @@ def plan(tier):
     jobs = _plan_seam(tier)
     from harness import mutate
 
-    for doc in sorted(mutate.DOCS):
+    for doc in textpath.doc_names():
         jobs.append(Job("sources", {"doc": doc}, 120, 30, note="real front ends: 9 source kinds x 2 handlers"))
         jobs.append(Job("real_backends", {"doc": doc}, 120, 30, note="real writers + tree serializer under every user prefix map"))
         if tier != "quick" or doc in ("basic", "mixed", "qnames", "wild", "temporal", "holder"):
